@@ -54,6 +54,44 @@ CHECKS["C13"] = dict(
     note="Bitwise equality of values is a property of the implementation's arithmetic and is tested, not proved; the proofs cover order, filtering and metadata.",
     design="5 C13")
 
+CHECKS["C02"] = dict(
+    technique="Coq proofs of the chain-level identities (five-point, apex independence over closed surfaces, 1D telescoping) + exact-model differential run",
+    text="Theorems over Z^3: five-point identity, apex independence of the signed cone sum for every closed oriented triangle surface, sum of per-cell cone sums = cone sum "
+         "of the union, opposite triangles cancel, 1D lengths telescope to the width. Tie: every cell measure > 0, sum of measures = box measure, every cell measure = the "
+         "exact model's, over the geometric suite (all dimensionalities, periodic or not, anisotropic/offset boxes).",
+    note="Partial: that the union of all cell surfaces minus cancelling interior triangles is the box surface (reciprocity of the computed polygons) is geometric and is "
+         "checked per run (C03), not proved.", design="5 C02")
+CHECKS["C03"] = dict(
+    technique="Coq proofs (reciprocity lemma; structural model: stored once, listed by both) + all-pairs differential run",
+    text="Theorems: a point of cell i on the bisector towards j belongs to cell j (any site set); the compact face list of well-formed cells stores no pair twice and no "
+         "self face; an unshifted interior face is listed exactly by its two cells. Tie: all ordered neighbour pairs of every input (incl. masks): areas, shifted centroids, "
+         "opposite normals above the 1e-9 threshold; storage once / reciprocal periodic pairs / flux cancellation on the stored tessellation.",
+    note="Reciprocity of the computed polygons depends on C01 (geometry) and is therefore partial at proof level.", design="5 C03")
+CHECKS["C04"] = dict(
+    technique="Coq proofs over Z^3 (normal direction of the model bisector, centroid-on-plane, closed-surface area sum, per-triangle divergence identity) + per-face/per-cell differential run",
+    text="Theorems: the outward normal of the model's bisector points to the right site; area-weighted centroids of coplanar triangles stay in the plane; vector areas of a closed "
+         "surface sum to zero; area vector . (3 centroid - 3 g) = 3 x cone volume per triangle; apex independence. Tie: every stored face (unit normal, direction, centroid on "
+         "plane/wall) and every constructed cell (area-normal sum = 0, divergence sum = volume) of the geometric suite.",
+    note="Unit length of the floating-point normal and rounding are tested with tolerances, not proved (no sqrt theorem in Z).", design="5 C04")
+CHECKS["C06"] = dict(
+    technique="Coq proofs of the per-axis block lemma / half-period bound / translation invariance + differential run periodic vs replicated vs translated",
+    text="Theorems: images further than one period away on any axis cannot share a face with a generator of the box (so 3^d images suffice, any box shape); a cell stays "
+         "within half a period of its generator; distances are translation invariant. Tie: periodic build vs central block of the non-periodic build of the 3^d-replicated "
+         "generators (volume, centroid, faces by (neighbour, lattice offset)), translation metamorphic test, shift lattice / absent-iff-zero / no boundary faces.",
+    note="Partial: equality of the model's periodic cell with the infinite replication uses C01 (VerticesSpan residue).", design="5 C06")
+CHECKS["C08"] = dict(
+    technique="Coq proofs (slab/line product, 1D midpoint) + metamorphic (garbage in unused coordinates, bitwise) and closed-form differential run",
+    text="Theorems: for sites in z=0 (resp. on the x axis) the nearest-site comparison ignores z (resp. y,z); between sorted 1D neighbours the cell boundary is the midpoint. "
+         "Tie: bitwise identical output under garbage (huge/tiny/negative) in unused coordinates of generators, anchor, width; 1D = closed form with two unit faces; "
+         "2D = 3D unit slab; normals unit and inside the active subspace.",
+    note="Non-finite garbage (NaN/inf) is outside 'valid input' (finite coordinates) and is not generated.", design="5 C08")
+CHECKS["C16"] = dict(
+    technique="Coq proof of the safety-radius lemma (Cauchy-Schwarz, nia) and segment convexity + exact-model and metamorphic differential run",
+    text="Theorems: a point within R/2 of g is strictly closer to g than to any site beyond R (all positions); Cauchy-Schwarz; on a segment the squared distance to g is "
+         "bounded by the end points' (the step behind 'farthest point is a vertex'). Tie: reported radius vs exact 2 sqrt(max vertex distance^2) of the model cell, >= twice the "
+         "distance to every implementation vertex; generators appended beyond the safety ball (all periodic images outside) leave the cell unchanged.",
+    note="Partial: 'the farthest point of the maintained polytope is one of the maintained vertices' (VerticesSpan) is not proved for d = 2, 3.", design="5 C16")
+
 NOT_YET = {}
 
 ALL = ["C%02d" % i for i in range(1, 21)]
@@ -86,7 +124,7 @@ def main():
             "enable": "RUSTFLAGS='--cfg meshless_voro_verif' cargo build (the harness crate in /verif/harness depends on /repo by path)",
             "baseline_off_cmd": "cd /repo && cargo test --workspace --no-fail-fast --offline",
             "source_commits": ["2ec7ecd"],
-            "fix_commits": ["09dfeb6", "acc62b6"],
+            "fix_commits": ["09dfeb6", "acc62b6", "e7978d5"],
             "add_only": True,
         },
         "engines": [{
